@@ -20,6 +20,7 @@ CHUNK = 4
 
 CONFIGS = [dict(cleaned=c, subs=s) for c in (True, False) for s in ('off', 'A', 'ABpid')]
 FIELDSETS = [['id'], ['id', 'N', 'x_com'], ['id', 'sigmavMid_com', 'r25_L2com']]
+MAINPROG = ['N_mainprog', 'vcirc_max_L2com_mainprog', 'sigmav3d_L2com_mainprog', 'v_L2com_mainprog', 'haloindex']
 
 
 def alphabet():
@@ -130,7 +131,7 @@ def run_dirchange(case):
 
 
 def run_negative():
-    from vf import catgen
+    from vf import catgen, core
     from vf.checks import c01
     probs = []
     V = c01.V6
@@ -156,7 +157,53 @@ def run_negative():
             probs.append(dict(sig='negative:accepted-mixed', msg='files from different catalogs accepted'))
         except Exception:
             pass
-    return dict(problems=probs, evals=n, nt=['negative-dup', 'negative-mixed'])
+    # a sibling catalog whose directory name merely EXTENDS the first one's name (z0.500 / z0.500_b), named after it in the
+    # list: either the list is refused, or the result is the concatenation of the two single-file loads (slices included)
+    # (both catalogs have superslabs 0 and 1, so a loader that looks for the particle files of B's superslab 1 next to A finds A's)
+    catA = catgen.Catalog([[V[1], V[2]], [V[2], V[3]]], slab_ids=[0, 1])
+    catB = catgen.Catalog([[V[4]], [V[3], V[1], V[4]]], slab_ids=[0, 1])
+    for cleaned in (True, False):
+        for subs in (False, dict(A=True, pos=True)):
+            zdir, fnsA = _ENV.mount(catA)
+            d = os.path.dirname(os.path.dirname(os.path.dirname(zdir)))
+            sib = catgen.ZDIR + '_b'
+            fnB = None
+            for rel, node in catB.files.items():
+                if rel.startswith('halos/'):
+                    p = os.path.join(d, catgen.SIM, rel.replace('/' + catgen.ZDIR + '/', '/' + sib + '/', 1))
+                else:
+                    p = os.path.join(d, 'cleaning', catgen.SIM, sib, rel[len('clean/'):])
+                os.makedirs(os.path.dirname(p), exist_ok=True)
+                if not os.path.exists(p):
+                    open(p, 'w').close()
+                _ENV.fake.store[os.path.abspath(p)] = node
+                if p.endswith('halo_info_001.asdf') and 'cleaning' not in p:
+                    fnB = p
+            n += 1
+            kw = dict(cleaned=cleaned, fields=['id', 'N'])
+            try:
+                both = _ENV.load([fnsA[0], fnB], subsamples=dict(subs) if subs else False, **kw)
+            except Exception:
+                continue        # refused
+            try:
+                a = _ENV.load(fnsA[0], subsamples=dict(subs) if subs else False, **kw)
+                b = _ENV.load(fnB, subsamples=dict(subs) if subs else False, **kw)
+            except Exception as e:
+                st = core.stale_reason(e)
+                if st:
+                    raise core.Stale(st)
+                raise
+            ok = list(both.halos['id']) == list(a.halos['id']) + list(b.halos['id'])
+            if ok and subs:
+                for cobj, off in ((a, 0), (b, len(a.halos))):
+                    for r in range(len(cobj.halos)):
+                        s0, n0 = int(cobj.halos['npstartA'][r]), int(cobj.halos['npoutA'][r])
+                        s1, n1 = int(both.halos['npstartA'][off + r]), int(both.halos['npoutA'][off + r])
+                        if n0 != n1 or not np.array_equal(np.asarray(cobj.subsamples['pos'][s0:s0 + n0]), np.asarray(both.subsamples['pos'][s1:s1 + n1])):
+                            ok = False
+            if not ok:
+                probs.append(dict(sig='negative:sibling-catalog-mixed-in', msg=f'cleaned={cleaned} subsamples={subs}: the list [{fnsA[0]}, {fnB}] (two catalogs, z0.500 and z0.500_b) was accepted but is not the concatenation of the two single-file loads'))
+    return dict(problems=probs, evals=n, nt=['negative-dup', 'negative-mixed', 'negative-sibling'])
 
 
 def run(case):
@@ -177,7 +224,9 @@ def run(case):
     cat = catgen.Catalog(slabs)
     cfg = CONFIGS[case['cfg']]
     o = opts_for(cfg)
-    fields = FIELDSETS[case['fs']]
+    fields = list(FIELDSETS[case['fs']])
+    if cfg['cleaned'] and case['fs'] == 1:
+        fields += MAINPROG        # columns the loader re-creates with another shape after allocating the table
     zdir, fns = _ENV.mount(cat)
     S = len(slabs)
     probs = []
